@@ -388,6 +388,10 @@ impl Sm9SignMasterKey {
     }
 
     pub fn verify_sign(&self, id: &[u8], data: &[u8], h: &U256, s: &Point) -> Sm9Result<()> {
+        // B1: h must be in [1, N-1]
+        if h.is_zero() || u256_cmp(h, &SM9_N_MINUS_ONE) > 0 {
+            return Err(Sm9Error::InvalidDigest);
+        }
         let g = sm9_u256_pairing(&self.ppubs, &SM9_POINT_MONT_P1);
         let t = g.pow(h);
         // B5: h1 = H1(ID || hid, N)
